@@ -137,6 +137,13 @@ def run(ctx):
     tn = fb.find(LEX + "try_next")
     lexenv = lambda cur=None: {1: [absint.Enum(0, []) if cur is None else absint.Enum(1, [cur]), absint.UNKNOWN, [1, 1]]}
 
+    # ------------------------------------------------------------------ C06-token-classes
+    ctx.rule("C06-token-classes", "single tokens generated from the productions of R7RS 7.1.1 (ordinary and peculiar identifiers with every "
+                                  "kind of <subsequent>, signed integers, ratios, decimals with exponent) are read as the class and value the "
+                                  "grammar assigns (whole-lexer abstract run on `token + delimiter`)")
+    from . import tokenclass
+    tokenclass.rule(ctx, "C06-token-classes")
+
     # ------------------------------------------------------------------ C06-charclass
     ctx.rule("C06-charclass", "layout characters and delimiters form one consistent set across the lexer")
     disp = {}
